@@ -274,10 +274,36 @@ def rule_tables_c09(ctx):
     for k, v in t["CALLABLE_LOOKUP"].items():
         inst = {"table": "CALLABLE_LOOKUP", "entry": f"{k!r}: {v!r}"}
         r.instances.append(inst)
-        if v in ctor:
-            r.ok()
-        else:
+        if v not in ctor:
             r.fail(Finding("R-TABLE/C09", f"R-TABLE|CALLABLE_LOOKUP|{k}", where, f"CALLABLE_LOOKUP[{k!r}] = {v!r} is not a DSL constructor", []))
+        elif isinstance(v, str) and v.rstrip("_") != k:
+            r.fail(Finding("R-TABLE/C09", f"R-TABLE|CALLABLE_LOOKUP|{k}|alias", where, f"CALLABLE_LOOKUP[{k!r}] = {v!r}: a callable alias may only drop the trailing underscore of a Python keyword clash ('in' -> 'in_')", []))
+        else:
+            r.ok()
+    # documented pre-processor aliases: type / dtype and len / length
+    alias_of = {"type": "dtype", "dtype": "dtype", "len": "length", "length": "length"}
+    for k, v in t["PRE_PROC_LOOKUP"].items():
+        inst = {"table": "PRE_PROC_LOOKUP alias", "entry": f"{k!r}: {v!r}"}
+        r.instances.append(inst)
+        if k in alias_of and alias_of[k] != v:
+            r.fail(Finding("R-TABLE/C09", f"R-TABLE|PRE_PROC_LOOKUP|{k}|alias", where, f"PRE_PROC_LOOKUP[{k!r}] = {v!r}: the documented alias `{k}` means `{alias_of[k]}`", []))
+        else:
+            r.ok()
+    missing_alias = sorted(set(alias_of) - set(t["PRE_PROC_LOOKUP"]))
+    if missing_alias:
+        r.fail(Finding("R-TABLE/C09", "R-TABLE|PRE_PROC_LOOKUP|missing", where, f"documented pre-processor spellings {missing_alias} are no longer accepted", []))
+    # type names agree with the serialiser's inverse table
+    try:
+        inv = module_table(prog, prog.module("conditions"), "INV_DTYPE_LOOKUP")
+        for ty, nm in inv.items():
+            inst = {"table": "DTYPE_LOOKUP vs INV_DTYPE_LOOKUP", "entry": f"{nm!r}"}
+            r.instances.append(inst)
+            if t["DTYPE_LOOKUP"].get(nm) == ty:
+                r.ok()
+            else:
+                r.fail(Finding("R-TABLE/C09", f"R-TABLE|DTYPE_LOOKUP|{nm}|inverse", where, f"type name {nm!r} parses to {t['DTYPE_LOOKUP'].get(nm)!r} but is the written name of {ty!r}", []))
+    except Undecidable:
+        pass
     # DTYPE_LOOKUP: every name maps to a type that is also an identity entry
     d = t["DTYPE_LOOKUP"]
     for k, v in d.items():
@@ -458,11 +484,16 @@ def rule_conv(ctx):
     ctxt = ast.unparse(comb.node)
     inst = {"combination writer": norm(comb.node.body[-1])}
     r.instances.append(inst)
-    if "self.FLATTEN_SYMBOL" in ctxt and "to_json_like()" in ctxt and "self.children" in ctxt:
+    from .shape import canon, single_return
+    rvc = single_return(comb)
+    good = "{self.FLATTEN_SYMBOL: [_v0.to_json_like() for _v0 in self.children]}"
+    if rvc is not None and canon(rvc) == good:
         r.ok()
-    else:
+    elif rvc is not None and isinstance(rvc, ast.Dict) and len(rvc.values) == 1 and isinstance(rvc.values[0], (ast.ListComp, ast.List)):
         r.fail(Finding("R-CONV", "R-CONV|conditions.ConditionBinaryOp.to_json_like", f"{comb.file}:{comb.node.lineno}",
-                       "combination serialisation must wrap the serialised children under the class' FLATTEN_SYMBOL", []))
+                       f"combination serialisation is `{canon(rvc)}`; it must wrap *every* serialised child under the class' own symbol: `{good}`", []))
+    else:
+        r.undecided.append(inst)
     return r
 
 
@@ -536,7 +567,13 @@ def rule_castinv(ctx):
             break
         pre.append(st)
     if out_dict is None:
-        raise AnalysisError("Rule.to_json_like: the returned mapping with a 'cast' entry not found")
+        has_map = any(isinstance(st, ast.Assign) and isinstance(st.value, ast.Dict) for st in writer.node.body)
+        if not has_map:
+            raise AnalysisError("Rule.to_json_like: the returned mapping not found")
+        r.instances.append({"cast": "not written at all"})
+        r.fail(Finding("R-CASTINV", "R-CASTINV|rules.Rule.to_json_like|missing", where,
+                       "Rule.to_json_like does not write the rule's casts: a rule that declares casts round-trips to one without", []))
+        return r
     cast_expr = next(v for k, v in zip(out_dict.keys, out_dict.values) if isinstance(k, ast.Constant) and k.value == "cast")
     # table injectivity
     inv_names = {}
